@@ -70,3 +70,14 @@ Qed.
 (* 4096 tables: outside [pre]; the model build panics like the real one *)
 Example c06_sharp_nonvacuous : 4096 <= len (map (fun i => (Z.of_nat i, @nil Z)) (seq 0 4096)).
 Proof. vm_compute. discriminate. Qed.
+
+(* a failed add_table for a fresh tag followed by a copy from a font that has that tag: hypotheses of
+   c06_failed_add_table_does_not_mask_copy are satisfiable, and the conclusion computes *)
+Example c06_failed_add_table_hypotheses_nonvacuous : exists src,
+  font_ref_new ex_src_bytes = Some src /\ lookup TAG_name ex_m = None /\
+  In TAG_name (map r_tag (fr_records src)) /\ table_data src TAG_name = Some [4;4] /\
+  contains (add_table ex_m TAG_name None) TAG_name = false /\
+  lookup TAG_name (copy_missing_tables (add_table ex_m TAG_name None) src) = Some [4;4].
+Proof.
+  eexists. split; [vm_compute; reflexivity|]. vm_compute. repeat split. right. left. reflexivity.
+Qed.
